@@ -10,3 +10,4 @@ def run(ctx):
     T.rule_lookup(ctx, "R3")
     T.rule_longest(ctx, "R4")
     T.rule_traversals(ctx, "R5")
+    T.rule_triedict_model(ctx, "R6", 3 if ctx.tier == "thorough" else 2)
